@@ -3,6 +3,7 @@ package main
 // More environment models: identity string encodings, process-seeded map hash.
 
 import (
+	"go/types"
 	"hash/fnv"
 
 	"golang.org/x/tools/go/ssa"
@@ -66,4 +67,87 @@ func init() {
 		}
 		return BVConst(64, -1)
 	})
+}
+
+// ---- anypb.Any as a typed box (lib.NewAny / lib.FromAny) ----
+
+func structFieldIndex(t types.Type, name string) int {
+	st, ok := t.Underlying().(*types.Struct)
+	if !ok {
+		return -1
+	}
+	for i := 0; i < st.NumFields(); i++ {
+		if st.Field(i).Name() == name {
+			return i
+		}
+	}
+	return -1
+}
+
+func init() {
+	registerIntrinsic("any.New", func(in *Interp, fn *ssa.Function, a []Value) Value {
+		anyPtrT := fn.Signature.Results().At(0).Type()
+		anyT := anyPtrT.Underlying().(*types.Pointer).Elem()
+		iv, ok := a[0].(*IfaceV)
+		if !ok || iv.T == nil {
+			return TupleV{(*Pointer)(nil), in.opaqueError("NewAny(nil)")}
+		}
+		mt := in.marshalModel(iv).(TupleV)
+		sv := in.zero(anyT).(*StructV)
+		pt := iv.T.Underlying().(*types.Pointer)
+		sv.f[structFieldIndex(anyT, "TypeUrl")] = mkString("type.googleapis.com/" + typeKey(pt.Elem()))
+		sv.f[structFieldIndex(anyT, "Value")] = mt[0]
+		o := in.newObject(anyT, sv, "anypb.Any")
+		return TupleV{&Pointer{obj: o}, in.nilErrorI()}
+	})
+	registerIntrinsic("any.From", func(in *Interp, fn *ssa.Function, a []Value) Value {
+		p, _ := a[0].(*Pointer)
+		if p == nil {
+			return TupleV{&IfaceV{}, in.opaqueError("FromAny(nil)")}
+		}
+		sv, ok := in.navigate(p).(*StructV)
+		if !ok {
+			in.unsupported("FromAny: not a struct")
+		}
+		var box *Box
+		for _, f := range sv.f {
+			if s, ok := f.(*SliceV); ok && s.box != nil {
+				box = s.box
+			}
+		}
+		if box == nil {
+			// raw (attacker-chosen) bytes inside an Any: decoding is out of the model
+			if in.decide(in.fresh("zz.fromany.raw.fails", BoolSort)) {
+				return TupleV{&IfaceV{}, in.opaqueError("FromAny: undecodable")}
+			}
+			in.unsupported("FromAny of raw bytes succeeded (protobuf runtime out of reach)")
+		}
+		o := in.newObject(box.typ, in.deepSnapshot(box.val, 0, map[*Object]*Object{}), "fromany")
+		return TupleV{&IfaceV{T: types.NewPointer(box.typ), V: &Pointer{obj: o}}, in.nilErrorI()}
+	})
+}
+
+func init() {
+	// HashString: the (identity-encoded) string of the uninterpreted hash - injective like the hash
+	registerIntrinsic("hash32.string", func(in *Interp, fn *ssa.Function, a []Value) Value {
+		return &StringV{b: in.hashUF("hash32", a[0], 32)}
+	})
+	registerIntrinsic("hash20.string", func(in *Interp, fn *ssa.Function, a []Value) Value {
+		return &StringV{b: in.hashUF("hash20", a[0], 20)}
+	})
+}
+
+func init() {
+	// zzAltEncoding(bz, k): another byte string that decodes to the same message as bz (protobuf
+	// has many encodings per message: explicit default-valued fields, field order, non-minimal varints)
+	zzFuncs["zzAltEncoding"] = func(in *Interp, fn *ssa.Function, a []Value) Value {
+		s, ok := a[0].(*SliceV)
+		if !ok || s.box == nil {
+			in.unsupported("zzAltEncoding of raw bytes")
+		}
+		k := in.constIdx(a[1].(*Term))
+		in.boxes++
+		nb := &Box{id: in.boxes, val: s.box.val, typ: s.box.typ, tag: s.box.tag + "'", alt: k}
+		return &SliceV{box: nb}
+	}
 }
